@@ -193,6 +193,20 @@ def vf_angle(eng, st, fr, ins, a):
     return v
 
 
+@model("vf_eq")
+def vf_eq(eng, st, fr, ins, a):
+    x, y = a
+    if x is UNDEF or y is UNDEF:
+        raise Inconclusive("vf_eq(undef)")
+    if not isinstance(x, SV) and not isinstance(y, SV):
+        if x != x or y != y:
+            return 0
+        m = max(1.0, abs(x), abs(y))
+        return int(abs(x - y) <= 1e-9 * m)
+    c = eng.fcmp("oeq", x, y, ir.DOUBLE)
+    return c
+
+
 @model("vf_enum")
 def vf_enum(eng, st, fr, ins, a):
     v = a[0]
